@@ -1,5 +1,6 @@
 import MindsVerif.Lemmas.ModelJoinArgs
 import MindsVerif.Lemmas.ModelJoinFlow
+import MindsVerif.Lemmas.ModelJoinLimit
 /-!
 # C14 — in a table–model join the model gets the right rows and arguments, only those
 
@@ -25,6 +26,8 @@ After the repairs 048b490, 1a1b62e, 9de9983, 8fa2a67, 34967fc the clauses hold w
          `C14_4_own_prefix` (alias prefix in ANY case), `C14_4_partition_size_removed`
 * T14.5  `C14_5_sound`, `C14_5_complete`, `C14_5_neutralised`, `C14_5_swap` (`model JOIN table ON …`: the model's
          columns_map comes from that ON, 651e1d3), `C14_rewrite_keeps_table` (fcfe472) — witness: `>` mapped
+* LIMIT  `C14_limit_plain_row` (a fetch carries LIMIT / OFFSET / ORDER BY only in a plain row query: no HAVING,
+         GROUP BY, DISTINCT, and no aggregate anywhere in the select list), `C14_limit_needs_use_limit`
 * T14.1  `C14_1` (GLOBAL: in every plan the modelled planner emits, the apply steps — also those inside
          MapReduceSteps — are, up to order, exactly the model operands, one each (`C14_1_nodup`), and the input of
          the apply step of operand `i` is built, by fetch / sub-select / apply / join steps, from exactly the
@@ -382,10 +385,35 @@ produces (`planWith`: join sequence incl. the model-first swap, step stack, MapR
   apply j ↦ [j], join l r ↦ l ++ r, a MapReduceStep ↦ its last sub-step) it is the join of everything to the
   left of the model, in order. -/
 theorem C14_1 (ops : List Operand) (w : Option E) (u : Option (List (String × String))) (k : Nat)
-    (steps : List Step) (h : planWith ops w u k = .ok steps) :
+    (info : QInfo) (steps : List Step) (h : planWith ops w u k info = .ok steps) :
     ((appliesOf steps).map (·.1)).Perm (modelIdx ops) ∧
     ∀ ir ∈ appliesOf steps, isModAt ops ir.1 = true ∧ Holds steps ir.2 (leftOf ops ir.1) :=
-  planWith_flow ops w u k steps h
+  planWith_flow ops w u k info steps h
+
+/-- **which rows the model is applied to (LIMIT)**.  In every plan the modelled planner produces, a fetch step
+carries a LIMIT, an OFFSET or an ORDER BY only when the query is a plain row query: no HAVING, no GROUP BY, no
+DISTINCT and no aggregate function ANYWHERE in the select list (`hasAgg` walks the targets: operands of
+expressions, function arguments, CAST / CASE operands).  Together with `C14_1` (the input of every apply step is
+built from the fetches of the operands to its left): the data a model is applied to is cut by the query's LIMIT
+only when LIMIT counts rows of that data. -/
+theorem C14_limit_plain_row (ops : List Operand) (w : Option E) (u : Option (List (String × String))) (k : Nat)
+    (info : QInfo) (steps : List Step) (h : planWith ops w u k info = .ok steps)
+    (j : Nat) (wh : Option E) (l : FetchLim) (hm : Step.fetch j wh l ∈ steps) (hl : l.any = true) :
+    info.having = false ∧ info.groupBy = false ∧ info.distinct = false ∧
+    ∀ t ∈ info.targets, ∀ n ∈ nodes t, isAggNode n = false := by
+  have hp := planWith_limit ops w u k info steps h j wh l hm hl
+  simp only [plainRow, hasAgg, Bool.and_eq_true, Bool.not_eq_true', List.any_eq_false] at hp
+  refine ⟨hp.1.1.1, hp.1.1.2, hp.1.2, ?_⟩
+  intro t ht n hn
+  have := hp.2 t ht
+  simp only [List.any_eq_true, not_exists, not_and] at this
+  cases hb : isAggNode n with
+  | false => rfl
+  | true => exact absurd hb (this n hn)
+
+/-- the LIMIT of a fetch is decided by `use_limit`, which is only ever switched off after `check_use_limit` -/
+theorem C14_limit_needs_use_limit (ops : List Operand) (j : Nat) (w : Option E) (st : St)
+    (h : (fetchLim ops j w st).any = true) : st.useLimit = true := fetchLim_any ops j w st h
 
 theorem C14_1_nodup (ops : List Operand) : (modelIdx ops).Nodup := modelIdx_nodup ops
 
@@ -395,7 +423,7 @@ theorem C14_1_plan (q : Query) (steps : List Step) (h : plan q = .ok steps) :
       ((appliesOf steps).map (·.1)).Perm (modelIdx ops) ∧
       ∀ ir ∈ appliesOf steps, isModAt ops ir.1 = true ∧ Holds steps ir.2 (leftOf ops ir.1) := by
   obtain ⟨ops, w, h1, h2⟩ := plan_planWith q steps h
-  exact ⟨ops, h1, rewriteOn_kinds _ _ _ h1, planWith_flow ops w _ _ steps h2⟩
+  exact ⟨ops, h1, rewriteOn_kinds _ _ _ h1, planWith_flow ops w _ _ _ steps h2⟩
 
 /-- a model cannot be the first thing processed -/
 theorem C14_1_predictor_first (ops : List Operand) (i : Nat) (w : Option E) (u : Option (List (String × String)))
@@ -535,6 +563,24 @@ example : isNullable opsL 0 = false ∧ isNullable opsL 1 = true ∧
 theorem C14_target_stays :
     rowDict opsW 1 (some "y") (some (.bin "=" (.col ["m"] "Y") (.const "4"))) = some [] ∧
     outerWhere opsW (.bin "=" (.col ["m"] "Y") (.const "4")) = .bin "=" (.col ["m"] "Y") (.const "4") := by
+  decide
+
+/-- aggregates nested in an expression / a function / a CAST are seen (seeded change C14_6) -/
+example : hasAgg [.bin "/" (.fn "sum" (.acons (.col ["m"] "ttt") .anil)) (.fn "count" (.acons (.opq "Star") .anil))] = true ∧
+    hasAgg [.fn "round" (.acons (.fn "avg" (.acons (.col ["m"] "ttt") .anil)) (.acons (.const "2") .anil))] = true ∧
+    hasAgg [.fn "cast" (.acons (.fn "SUM" (.acons (.col ["m"] "ttt") .anil)) .anil)] = true ∧
+    hasAgg [.col ["t"] "a", .fn "lower" (.acons (.col ["m"] "ttt") .anil)] = false := by decide
+
+/-- `SELECT sum(m.x) / count(*) FROM t JOIN m LIMIT 3`: the fetch feeding the model has no LIMIT;
+`SELECT t.a, m.x … LIMIT 3`: it has -/
+def qRows : QInfo := { limit := some "3", targets := [.col ["t"] "a"], isStar := false }
+def qAgg : QInfo :=
+  { targets := [.bin "/" (.fn "sum" (.acons (.col ["m"] "x") .anil)) (.fn "count" (.acons (.opq "Star") .anil))],
+    isStar := false, limit := some "3" }
+
+example : fetchLim opsW 0 none { q := qRows, useLimit := checkUseLimit opsW qRows } = { limit := some "3" } ∧
+    checkUseLimit opsW qAgg = false ∧
+    fetchLim opsW 0 none { q := qAgg, useLimit := checkUseLimit opsW qAgg } = {} := by
   decide
 
 /-! ## non-vacuity -/
